@@ -438,6 +438,9 @@ Proof.
     destruct (clone_ems_inv h es W (wf_mapM_ems _ _ _ W E)) as (_ & _ & _ & T2 & _).
     destruct (clone_ems h es) as [h1 [|x]]; simpl in *; auto.
     apply Sep_push_tc; auto.
+  - (* extend_self *) subst cp. unfold exec_extend_self.
+    destruct (nth_error (ems h) c) as [e|] eqn:Ee; simpl; auto.
+    apply Sep_extend_locs; auto. eapply wf_em; eauto.
 Qed.
 
 Theorem Sep_run os : forall h, wf h -> Sep h -> Forall (fun o => sep_op o = true) os -> Sep (run h os).
